@@ -73,4 +73,22 @@ def msaLine (id : List Nat) (w : Nat) (taxon : List Nat) (cells : List (List Nat
 /-- `[x.strip().rstrip('.') for x in l.split('\t')]` -/
 def parseMsaLine (l : List Nat) : List (List Nat) := (split l).map fun f => rstripDots (strip f)
 
+/-! ### `@key:value` lines (simple meta data) -/
+
+def colon : Nat := 58
+
+/-- `'@{0}:{1}'.format(k, v)` -/
+def metaLine (k v : List Nat) : List Nat := at_ :: k ++ colon :: v
+
+/-- `line[1:].split(':', 1)`: the part before the first colon and the rest (`none` without a colon: the unpacking fails) -/
+def splitColon : List Nat → Option (List Nat × List Nat)
+  | [] => none
+  | c :: r => if c = colon then some ([], r) else (splitColon r).map fun p => (c :: p.1, p.2)
+
+/-- `key, value = [s.strip() for s in line[1:].split(':', 1)]` -/
+def parseMeta (line : List Nat) : Option (List Nat × List Nat) :=
+  match line with
+  | [] => none
+  | _ :: rest => (splitColon rest).map fun p => (strip p.1, strip p.2)
+
 end Verif.Line
